@@ -191,7 +191,7 @@ func runCorr(c *Ctx, seeds []*Seed) {
 		mut  string
 	}
 	var jobs []job
-	perSeed := c.N(80, 500)
+	perSeed := c.N(40, 500)
 	for ti := range corrTargets {
 		t := &corrTargets[ti]
 		n := 0
@@ -209,7 +209,7 @@ func runCorr(c *Ctx, seeds []*Seed) {
 				continue
 			}
 			n++
-			if !c.Thor && n%3 != 1 || c.Thor && n%2 != 1 {
+			if !c.Thor && n%4 != 1 || c.Thor && n%2 != 1 {
 				continue
 			}
 			var ms []mutant
@@ -292,7 +292,7 @@ func runCorr(c *Ctx, seeds []*Seed) {
 			rleSeeds = append(rleSeeds, s)
 		}
 	}
-	nr := c.N(1500, 20000)
+	nr := c.N(800, 20000)
 	rcases := make([]Case, 0, nr)
 	for k := 0; k < nr; k++ {
 		var data []byte
